@@ -287,6 +287,7 @@ def F3(ctx):
 def run(ctx):
     from . import guardvocab
     guardvocab.G0(ctx, effects={'notify', 'wait'})
+    guardvocab.G1(ctx, effects={'notify', 'wait'})
     if "future::block_on" not in ctx.prog.fns:
         ctx.notes.append("config %s has no `futures` feature: C20 rules not applicable there" % ctx.config)
         return
